@@ -242,8 +242,24 @@ ADDENDA2 = {
     "C19": "the piece index of a time lookup cannot wrap around (index-decrement discipline in find_interval / find_interval_vec).",
     "C20": "every iteration of the step loop reaches the callback loop (no break/continue/return before it), the terminal-event iteration included.",
 }
-for _k, _v in ADDENDA2.items():
-    ADDENDA[_k] = (ADDENDA.get(_k, "Also decided:") + " " + _v[0].upper() + _v[1:]) if _k in ADDENDA else "Also decided: " + _v
+ADDENDA3 = {   # round 9
+    "C01": "the stage SYSTEM handed to the nonlinear solver evaluates every stage at its own argument (no stage pinned to a cached slope).",
+    "C03": "the target of integrate(t) reaches the time arithmetic as given (no conversion to a fixed precision).",
+    "C05": "the scalar the controller works with is an order-reversing function of the scaled error of every component (abstract interpretation over sense and coverage of reductions).",
+    "C06": "the vectorised bisection behind array queries is re-judged over all order types (no cast of the end-time table to the query dtype).",
+    "C07": "the views `events` / `events_dict` are computed from the record list on every read (they store nothing).",
+    "C08": "where a new piece is stored in the ascending list of step end times depends on the times already stored.",
+    "C10": "the default kick mask, interpreted over index sets of the leading axis for n = 2..9, is exactly the latter half.",
+    "C12": "the failure handlers cannot themselves fail on the caught object (no indexing / unpacking of its payload before the status store and the raise).",
+    "C13": "every function below integrate() (integrators, stage solver, finite-difference Jacobian, root finders, interpolation) stores nothing into the arrays it is given or into views of them.",
+    "C16": "one iteration of the finite-difference loop, interpreted over Laurent polynomials with f linearised and the stencil moments, yields exactly the derivative in column j on every path (the sum is divided by the step that component was perturbed with).",
+    "C17": "a shortcut return guarded by anything but an equality of the coordinate with one value (tolerances, isclose, orderings) is reported.",
+    "C18": "the clamped last step of every integrate() call is taken exactly when |dt| > |tf - t|, so it never exceeds the clipped dt.",
+    "C20": "every integrator makes its first attempt with exactly the step it was given (a callback's dt is not clamped or damped before it is tried).",
+}
+for _add in (ADDENDA2, ADDENDA3):
+    for _k, _v in _add.items():
+        ADDENDA[_k] = (ADDENDA[_k] + " " + _v[0].upper() + _v[1:]) if _k in ADDENDA else "Also decided: " + _v
 for _k, _v in ADDENDA.items():
     CLAIMS[_k]["text"] = CLAIMS[_k]["text"] + " " + _v
 
